@@ -115,6 +115,36 @@ pub fn run_world(args: &Args) -> (u64, u64) {
             // lower-case spelling of the same user is the same normalised name
             c.world_server(exp, &user.to_ascii_lowercase(), key, proof, cs, true, Some(*sseed));
         }
+        // proofs with a zero first / last byte (found by trying server seeds through the public API), seeds with zero bytes
+        for target in [0usize, 19] {
+            c.reset("world-zero-proof-byte");
+            let key = rnd40(&mut rng);
+            let cseed: u32 = 0x00AB_00CD;
+            for try_seed in 0..3000u32 {
+                let sseed = try_seed.wrapping_mul(0x0101_0001) ^ 0xFF00_0000;
+                let u = wow_srp::normalized_string::NormalizedString::new("ZEROBYTE").unwrap();
+                clear_hooks();
+                inject(match exp { "vanilla" => "VanillaSeed", "tbc" => "TbcSeed", _ => "WrathSeed" }, &cseed.to_le_bytes());
+                let proof = match exp {
+                    "vanilla" => wow_srp::vanilla_header::ProofSeed::new().into_client_header_crypto(&u, key, sseed).0,
+                    "tbc" => wow_srp::tbc_header::ProofSeed::new().into_client_header_crypto(&u, key, sseed).0,
+                    _ => wow_srp::wrath_header::ProofSeed::new().into_client_header_crypto(&u, key, sseed).0,
+                };
+                if proof[target] == 0 {
+                    if let Some((_cl, pr, cs)) = c.world_client(exp, "ZEROBYTE", key, sseed, true, Some(cseed)) {
+                        c.world_server(exp, "ZEROBYTE", key, pr, cs, true, Some(sseed));
+                        let mut p2 = pr;
+                        p2[target] = 1;
+                        c.world_server(exp, "ZEROBYTE", key, p2, cs, true, Some(sseed));
+                        let mut p3 = pr;
+                        p3[19 - target] ^= 0x80;
+                        c.world_server(exp, "ZEROBYTE", key, p3, cs, true, Some(sseed));
+                    }
+                    break;
+                }
+            }
+            clear_hooks();
+        }
         // seeds drawn by the library itself (new() without injection, and default())
         for k in 0..(if thorough { 200 } else { 20 }) {
             c.reset("world-own-seed");
@@ -213,6 +243,20 @@ pub fn run_stream(args: &Args) -> (u64, u64) {
             // and the stream goes on afterwards
             stream_dir(&mut c, &mut rng, &mut cl, &mut sv, 100, false);
             stream_dir(&mut c, &mut rng, &mut sv, &mut cl, 100, false);
+        }
+    }
+    // boundary walk: calls that END exactly on a key-period boundary (20 / 40), on 256, 1024, 65 536 and one byte around them
+    {
+        c.reset("stream-boundaries");
+        if let Some((mut cl, mut sv)) = pair(&mut c, exp, "WALK", rnd40(&mut rng), None, rng.gen()) {
+            for plan in [vec![20usize, 20, 40, 40, 136, 1, 767, 1, 255, 1], vec![39, 1, 1, 39, 176, 768, 1024, 1], vec![255, 1, 256, 512, 1, 1023, 1024]] {
+                for n in plan {
+                    let mut data = vec![0u8; n];
+                    rng.fill_bytes(&mut data);
+                    if let Some(o) = c.call(&mut cl, "enc", &data, "half") { c.call(&mut sv, "dec", &o, "half"); }
+                    if let Some(o) = c.call(&mut sv, "enc", &data, "combined") { c.call(&mut cl, "dec", &o, "combined"); }
+                }
+            }
         }
     }
     // typed header helpers on boundary sizes / opcodes (bytes and state against the specification)
@@ -361,7 +405,9 @@ const SIZES: [u32; 16] = [0, 1, 0x7F, 0x80, 0xFF, 0x100, 0x7FFE, 0x7FFF, 0x8000,
 const OPCODES: [u16; 5] = [0, 0xFF, 0x100, 0x8000, 0xFFFF];
 
 fn wrath_deliver(c: &mut C, rng: &mut StdRng, cl: &mut Conn, bytes: &[u8], path: u32, sent: (u32, u16)) {
-    c.sent = Some((sent.0, sent.1 as u32));
+    // sizes above 0x7FFFFF are outside C10's quantifier: no `sent` cross reference for them (the decoder is
+    // still validated against the specification's decode of the bytes)
+    c.sent = if sent.0 <= 0x7F_FFFF { Some((sent.0, sent.1 as u32)) } else { None };
     let via = if rng.gen() { "combined" } else { "half" };
     match path % 3 {
         0 => {
@@ -441,6 +487,16 @@ pub fn run_wrathhdr(args: &Args) -> (u64, u64) {
             let Some(bytes) = c.enc_server_hdr(&mut sv, size, op, "combined") else { break };
             let p = rng.gen();
             wrath_deliver(&mut c, &mut rng, &mut cl, &bytes, p, (size, op));
+        }
+    }
+    // beyond the listed properties (named deviation of the specification): sizes above 0x7FFFFF lose their high byte
+    {
+        c.reset("wrathhdr-wide");
+        if let Some((mut cl, mut sv)) = pair(&mut c, "wrath", "WIDE", rnd40(&mut rng), None, 77) {
+            for size in [0x80_0000u32, 0x80_0001, 0xFF_FFFF, 0x100_0000, 0x7FFF_FFFF, 0x1234_5678, 0x0180_0000] {
+                let Some(bytes) = c.enc_server_hdr(&mut sv, size, 0x1EE, "half") else { break };
+                wrath_deliver(&mut c, &mut rng, &mut cl, &bytes, size, (size, 0x1EE));
+            }
         }
     }
     // exhaustive size sweep (thorough): all 2^23 sizes, logged as block digests that TLC recomputes
@@ -676,9 +732,10 @@ pub fn run_hdrio(args: &Args) -> (u64, u64) {
         }
         for (exp_i, exp) in EXPS.iter().enumerate() {
             let (cl0, sv0) = bases[exp_i].clone();
-            let size: u32 = if *exp == "wrath" { [12u32, 0x7FFF, 0x8000, 0x7FFFFF, rng.gen_range(0..=0x7FFFFF)][round % 5] } else { [12u32, 0xFFFF, 0, rng.gen_range(0..=0xFFFF)][round % 4] };
-            let op16: u16 = if round % 2 == 0 { OPCODES[round % 5] } else { rng.gen() };
-            let op32: u32 = if round % 2 == 0 { [0u32, 0x1DC, 0xFFFF_FFFF][round % 3] } else { rng.gen() };
+            let size: u32 = if *exp == "wrath" { [12u32, 0x7FFF, 0x8000, 0x7FFFFF, 0xFF, 0xFF00, 0x10000, 0x7F00FF, rng.gen_range(0..=0x7FFFFF)][round % 9] }
+                            else { [12u32, 0xFFFF, 0, 0xFF, 0xFF00, 0x100, 0x8000, rng.gen_range(0..=0xFFFF)][round % 8] };
+            let op16: u16 = if round % 2 == 0 { [0u16, 0xFF, 0x100, 0x8000, 0xFFFF, 0xFF00, 0x00FF][round % 7] } else { rng.gen() };
+            let op32: u32 = if round % 2 == 0 { [0u32, 0x1DC, 0xFFFF_FFFF, 0x0001_0000, 0x0100_0000, 0xFF00_00FF, 0x00FF_FF00][round % 7] } else { rng.gen() };
             let csize: u16 = rng.gen();
             let mut cts: Vec<Vec<u8>> = vec![];
             for variant in 0..4 {
@@ -988,6 +1045,18 @@ pub fn run_hdradv(args: &Args) -> (u64, u64) {
                 let mut junk = vec![0u8; rng.gen_range(0..9)];
                 rng.fill_bytes(&mut junk);
                 c.read_hdr(&mut sv, "client", &[Step::Data(junk)], via);
+            }
+            // the public from_array parsers on arbitrary bytes
+            for _ in 0..4 {
+                let mut b6 = [0u8; 6];
+                rng.fill_bytes(&mut b6);
+                let sh = wow_srp::vanilla_header::ServerHeader::from_array([b6[0], b6[1], b6[2], b6[3]]);
+                let ch = wow_srp::vanilla_header::ClientHeader::from_array(b6);
+                let ws = wow_srp::wrath_header::ServerHeader::from_small_array([b6[0], b6[1], b6[2], b6[3]]);
+                let wl = wow_srp::wrath_header::ServerHeader::from_large_array([b6[0], b6[1], b6[2], b6[3], b6[4]]);
+                c.tr.ev(json!({"ev": "ParseHdr", "bytes": b(&b6),
+                    "server": {"size": sh.size, "opcode": sh.opcode}, "client": {"size": ch.size, "opcode": u32le(ch.opcode)},
+                    "small": {"size": ws.size, "opcode": ws.opcode}, "large": {"size": wl.size, "opcode": wl.opcode}}));
             }
             let mut big = vec![0u8; rng.gen_range(0..600)];
             rng.fill_bytes(&mut big);
